@@ -237,6 +237,12 @@ func serveroptsCase(h *H, on []string, sender bool, spelling int) {
 	}
 	args = append(args, "src/", "dst/")
 	out, opts, _ := realParse(args)
+	if opts == nil && has("DeleteMode") && !has("Recurse") {
+		// --delete without -r is refused by the option parser (D47): nothing to forward
+		h.emit(fmt.Sprintf("!serveropts-setup %q", args), out, "", false)
+		h.stat("serveropts.delete-without-recursion-refused")
+		return
+	}
 	if opts == nil {
 		h.emit(fmt.Sprintf("!serveropts-setup %q", args), out, "FAIL[C14] a client command line of accepted transfer options does not parse", false)
 		return
